@@ -257,6 +257,36 @@ func (c *Client) WaitFor(pred func(p *codec.Packet) bool, d time.Duration) ([]Rx
 	}
 }
 
+// Take blocks until pred matches a packet in the inbox and removes and returns
+// only that packet; everything else stays in the inbox in order.
+func (c *Client) Take(pred func(p *codec.Packet) bool, d time.Duration) (*codec.Packet, error) {
+	deadline := time.Now().Add(d)
+	timer := time.AfterFunc(d, func() { c.mu.Lock(); c.cond.Broadcast(); c.mu.Unlock() })
+	defer timer.Stop()
+	c.mu.Lock()
+	defer c.mu.Unlock()
+	scanned := 0
+	for {
+		for ; scanned < len(c.inbox); scanned++ {
+			if pred(c.inbox[scanned].P) {
+				p := c.inbox[scanned].P
+				c.inbox = append(append([]Rx(nil), c.inbox[:scanned]...), c.inbox[scanned+1:]...)
+				return p, nil
+			}
+		}
+		if c.parseEr != nil {
+			return nil, fmt.Errorf("wire: malformed stream from peer: %v", c.parseEr)
+		}
+		if c.rdErr != nil {
+			return nil, ErrClosed
+		}
+		if !time.Now().Before(deadline) {
+			return nil, ErrTimeout
+		}
+		c.cond.Wait()
+	}
+}
+
 // Drain removes and returns everything in the inbox.
 func (c *Client) Drain() []Rx {
 	c.mu.Lock()
